@@ -197,6 +197,12 @@ def documents(thorough):
         "langs": one, "variant": variants[1], "extra_css": [(".EmPh", "font-style: italic;"), ("#BiG", "font-weight: bold;")],
         "cues": {"en-US": [(1000, 2000, ["a ", ("el", "span", 'class="EMPH"', ["slanted"], (True, False, False)), " b"]),
                            (3000, None, [("el", "span", 'id="big"', ["heavy"], (False, True, False)), " tail"])]}}
+    # a span that carries a class reference AND an inline style: both count
+    yield "class and inline style on one span", {
+        "langs": one, "variant": variants[1], "extra_css": [(".it", "font-style: italic;"), (".bd", "font-weight: bold;")],
+        "cues": {"en-US": [(1000, 2000, ["plain ", ("el", "span", 'class="it" style="color:#ff0000;"', ["slanted"], (True, False, False)), " and ",
+                                         ("el", "span", 'class="bd" style="text-decoration:underline;"', ["lined"], (False, True, True)), " end"]),
+                           (3000, None, [("el", "span", 'class="it"', ["only a class"], (True, False, False)), " tail"])]}}
     # languages: interleaved, coinciding, disjoint; the second language first in time; three languages; lang attribute
     yield "two languages, same syncs", {"langs": two, "cues": {"en-US": [(1000, 2000, ["hello"]), (3000, 4000, ["bye"])],
                                                                "fr": [(1000, 2000, ["bonjour"]), (3000, 4000, ["au revoir"])]}}
@@ -283,7 +289,7 @@ def marked(chars, k):
 
 def explore(ctx, thorough):
     W = World(ctx)
-    bad = {k: [] for k in ("langs", "cues", "times", "text", "styles", "balanced", "reuse", "roundtrip")}
+    bad = {k: [] for k in ("langs", "cues", "times", "text", "styles", "balanced", "reuse", "roundtrip", "convert")}
     n = 0
     for label, model in documents(thorough):
         n += 1
@@ -340,6 +346,7 @@ def explore(ctx, thorough):
             if ids1 & ids2:
                 bad["reuse"].append(dict(case, why="two reads return caption sets that share caption / node objects"))
     n += roundtrip(ctx, bad)
+    n += conversions(ctx, bad)
     return W, bad, n
 
 
@@ -475,7 +482,98 @@ def roundtrip(ctx, bad):
     return n
 
 
+def vtt_chars(doc):
+    """[[(ch, i, b, u)] per cue] of a WebVTT document, or (None, problem) when i / b / u tags are not properly nested"""
+    import html
+    cues = []
+    for block in re.split(r"\n{2,}", doc.strip("\n")):
+        ls = block.split("\n")
+        k = next((i for i, l in enumerate(ls) if "-->" in l), None)
+        if k is None:
+            continue
+        chars, stack = [], []
+        for m in re.finditer(r"<(/?)([ibu])>|(&[a-zA-Z#0-9]+;|.|\n)", "\n".join(ls[k + 1:])):
+            if m.group(2):
+                if not m.group(1):
+                    stack.append(m.group(2))
+                elif stack and stack[-1] == m.group(2):
+                    stack.pop()
+                else:
+                    return None, f"stray or badly nested </{m.group(2)}> in {block[:80]!r}"
+            else:
+                chars.append((html.unescape(m.group(3)).replace("\xa0", " "), "i" in stack, "b" in stack, "u" in stack))
+        if stack:
+            return None, f"unclosed tags {stack} in {block[:80]!r}"
+        cues.append(chars)
+    return cues, None
+
+
+def nests(items, inside=False):
+    """a style element inside another one (outside the domain of C11 for the span writers)"""
+    for it in items:
+        if isinstance(it, tuple):
+            inner = it[1] if it[0] in ("i", "b", "u", "font") else it[2] if it[0] == "span" else it[3]
+            styled = it[0] != "font"
+            if (styled and inside) or nests(inner, inside or styled):
+                return True
+    return False
+
+
+def conversions(ctx, bad):
+    """SAMIReader.read -> WebVTTWriter.write and -> SAMIWriter.write -> SAMIReader.read on the marked-up documents: the italic /
+    bold / underlined characters of the source are those of the result (tags properly nested)"""
+    from . import markup_writer_fold as MW
+    M = MW.World(ctx)
+    M.F.external_models = dict(M.F.external_models, **SAMI_MODELS)
+    rcls = ctx.index.get_class(SAMI, "SAMIReader")
+
+    def read(doc):
+        me = Stub("reader", {}, cls=rcls)
+        init = rcls.find_method("__init__")
+        if init is not None:
+            M.F.call_function(init, [], {}, self_value=me)
+        return M.F.call_function(rcls.find_method("read"), [doc], {}, self_value=me)
+    n = 0
+    for label, model in documents(False):
+        if not (label.startswith("markup") or label.startswith("class")):
+            continue
+        want = expected(model)["en-US"]
+        case = {"document": label}
+        for target in ("WebVTT", "SAMI"):
+            if target == "SAMI" and any(nests(items) for cues_ in model["cues"].values() for _, _, items in cues_):
+                continue       # (the span writers keep one open span, not a stack: nested spans are outside the property's domain)
+            n += 1
+            try:
+                cs = read(serialise(model))
+                if target == "WebVTT":
+                    _, out, _ = M.write("pycaption/webvtt.py", "WebVTTWriter", cs, init_kw={"video_width": 640, "video_height": 360})
+                    cues, problem = vtt_chars(out)
+                else:
+                    _, out, _ = M.write(SAMI, "SAMIWriter", cs, init_kw={"video_width": 640, "video_height": 360})
+                    cues, problem = [c["chars"] for c in read_back(read(out))["en-US"]], None
+            except FoldRaise as e:
+                bad["convert"].append(dict(case, target=target, raises=f"{e.exc_name}: {e}"[:160]))
+                continue
+            except AnalysisError as e:
+                raise AnalysisError(f"SAMI -> {target} cannot be folded on the document '{label}': {e}")
+            if cues is None:
+                bad["convert"].append(dict(case, target=target, problem=problem))
+                continue
+            if len(cues) != len(want):
+                bad["convert"].append(dict(case, target=target, cues=len(cues), required=len(want)))
+                continue
+            for k, (chars, (_, _, sh)) in enumerate(zip(cues, want)):
+                for idx, name in ((1, "italic"), (2, "bold"), (3, "underline")):
+                    if marked(chars, idx) != marked(sh, idx):
+                        bad["convert"].append(dict(case, target=target, cue=k + 1, style=name, characters=marked(chars, idx),
+                                                   required=marked(sh, idx), written=out[-300:]))
+                        break
+    return n
+
+
 TEXTS = {
+    "convert": "SAMIReader.read -> WebVTTWriter.write, and -> SAMIWriter.write -> SAMIReader.read, on the marked-up documents: the "
+               "italic / bold / underlined characters are those of the source, tags properly nested",
     "roundtrip": "SAMIWriter.write -> SAMIReader.read: languages, cues, starts and non-final ends (ms; four seconds for a last cue), "
                  "lines and the italic / bold / underlined characters survive, and a second trip changes nothing further",
     "langs": "languages are listed in order of first appearance and every cue is under its own language",
